@@ -394,6 +394,249 @@ def drain_copies(F, S):
     out += [o for o in o2 if "accumulation in" not in o.required]
     return out, n
 
+# ------------------------------------------------------------------------------------------
+class _Lin:
+    """Linear forms over named symbols: {symbol: coefficient} + constant; None = unknown."""
+
+    @staticmethod
+    def const(c):
+        return ({}, c)
+
+    @staticmethod
+    def sym(name):
+        return ({name: 1}, 0)
+
+    @staticmethod
+    def add(a, b, sign=1):
+        if a is None or b is None:
+            return None
+        co = dict(a[0])
+        for k, v in b[0].items():
+            co[k] = co.get(k, 0) + sign * v
+        return ({k: v for k, v in co.items() if v != 0}, a[1] + sign * b[1])
+
+    @staticmethod
+    def eq(a, b):
+        return a is not None and b is not None and a[0] == b[0] and a[1] == b[1]
+
+    @staticmethod
+    def txt(a):
+        if a is None:
+            return "?"
+        parts = ["%s%s" % ("" if v == 1 else ("-" if v == -1 else "%d*" % v), k) for k, v in sorted(a[0].items())]
+        if a[1] or not parts:
+            parts.append(str(a[1]))
+        return " + ".join(parts)
+
+
+def drain_placement(F, S):
+    """GetData fills the caller's buffer contiguously: a small abstract interpretation of GetData over linear forms.
+    With D = the number of bytes delivered so far in this call (the sum of the results of the CopyAvailableData calls made),
+    every chunk is placed at buffer + D, is given room bufferSize - D, and the count returned is D. Loops are handled by
+    guessing, for every local the loop changes, the relations `v == D` / `v == bufferSize0 - D` that hold on entry and
+    keeping those the body preserves."""
+    fn = F.fn(HL + "::GetData", nparams=2)
+    out = []
+    buf, size0 = P(fn, 0), P(fn, 1)
+    L = _Lin
+    counter = [0]
+    problems = []
+    sites = []
+
+    def fresh(prefix):
+        counter[0] += 1
+        return "%s%d" % (prefix, counter[0])
+
+    def is_drain_call(nd):
+        return nd["k"] in CALLS and (nd.get("fq") or "") == HL + "::CopyAvailableData" and len(nd.get("args", [])) == 2
+
+    def ev(t, st):
+        """Linear value of term t in state st (st: var term -> linear form)."""
+        if t[0] == "const":
+            return L.const(t[1])
+        if t[0] == "var":
+            if t in st["vars"]:
+                return st["vars"][t]
+            return None
+        if t[0] == "op" and t[1] in ("+", "-"):
+            return L.add(ev(t[2], st), ev(t[3], st), 1 if t[1] == "+" else -1)
+        if t[0] == "call" and t in st["calls"]:
+            return st["calls"][t]
+        return None
+
+    def offset_of(t, st):
+        """dst term -> linear offset from the caller's buffer, or None."""
+        if t == buf:
+            return L.const(0)
+        if t[0] == "op" and t[1] == "+" and buf in (t[2], t[3]):
+            return ev(t[3] if t[2] == buf else t[2], st)
+        if t[0] == "un" and t[1] == "&" and t[2][0] == "idx" and t[2][1] == buf:
+            return ev(t[2][2], st)
+        return None
+
+    def do_calls(nid, st, record):
+        """Drain calls inside expression nid, in evaluation (node) order: obligations + a fresh result symbol each."""
+        for x in sorted(fn.subtree(nid)):
+            nd = fn.n(x)
+            if not is_drain_call(nd):
+                continue
+            dst, room = fn.term(nd["args"][0]), fn.term(nd["args"][1])
+            off, rm = offset_of(dst, st), ev(room, st)
+            if record:
+                sites.append((nd, dst, room, off, rm, st["D"]))
+            r = L.sym(fresh("r"))
+            st["calls"][fn.term(x)] = r
+            st["D"] = L.add(st["D"], r)
+
+    def assign(nd, st, record):
+        ks = fn.kids(nd["id"])
+        l = fn.term(ks[0])
+        do_calls(ks[1], st, record)
+        v = ev(fn.term(ks[1]), st)
+        if l[0] != "var":
+            return
+        op = nd.get("op")
+        if op == "=":
+            st["vars"][l] = v
+        elif op in ("+=", "-="):
+            st["vars"][l] = L.add(st["vars"].get(l), v, 1 if op == "+=" else -1)
+        else:
+            st["vars"][l] = None
+
+    def modified(nid):
+        m = set()
+        for x in fn.subtree(nid):
+            nd = fn.n(x)
+            if is_store(nd) or (nd["k"] == "UnaryOperator" and nd.get("op") in ("++", "--")):
+                l = fn.term(fn.kids(x)[0])
+                if l[0] == "var":
+                    m.add(l)
+            if nd["k"] == "DeclStmt":
+                for d in nd.get("decls", []):
+                    if "d" in d:
+                        m.add(("var", d["n"], d["d"]))
+        return m
+
+    def copy_state(st):
+        return {"vars": dict(st["vars"]), "calls": dict(st["calls"]), "D": st["D"], "ret": st["ret"]}
+
+    def run(nid, st, record):
+        nid = fn.strip(nid, casts=False)
+        nd = fn.n(nid)
+        k = nd["k"]
+        if k == "CompoundStmt":
+            for c in fn.kids(nid):
+                run(c, st, record)
+        elif k == "DeclStmt":
+            for d in nd.get("decls", []):
+                if "d" not in d:
+                    continue
+                v = ("var", d["n"], d["d"])
+                if "init" in d:
+                    do_calls(d["init"], st, record)
+                    st["vars"][v] = ev(fn.term(d["init"]), st)
+                else:
+                    st["vars"][v] = None
+        elif is_store(nd):
+            assign(nd, st, record)
+        elif k == "UnaryOperator" and nd.get("op") in ("++", "--"):
+            l = fn.term(fn.kids(nid)[0])
+            if l[0] == "var":
+                st["vars"][l] = L.add(st["vars"].get(l), L.const(1), 1 if nd["op"] == "++" else -1)
+        elif k in ("WhileStmt", "ForStmt", "DoStmt"):
+            if k == "ForStmt" and nd.get("init") is not None:
+                run(nd["init"], st, record)
+            mod = modified(nid)
+            S0 = L.sym("bufferSize0")
+            # relations with the delivered count that hold on entry
+            rel = {}
+            for v in mod:
+                cur = st["vars"].get(v)
+                if L.eq(cur, st["D"]):
+                    rel[v] = "D"
+                elif L.eq(cur, L.add(S0, st["D"], -1)):
+                    rel[v] = "S-D"
+            for _round in range(4):
+                h = copy_state(st)
+                Dh = L.sym(fresh("D"))
+                h["D"] = Dh
+                for v in mod:
+                    h["vars"][v] = Dh if rel.get(v) == "D" else (L.add(S0, Dh, -1) if rel.get(v) == "S-D" else None)
+                b = copy_state(h)
+                if nd.get("cond") is not None:
+                    do_calls(nd["cond"], b, False)
+                run(nd["body"], b, False)
+                if k == "ForStmt" and nd.get("inc") is not None:
+                    run(nd["inc"], b, False)
+                keep = {}
+                for v, r0 in rel.items():
+                    want = b["D"] if r0 == "D" else L.add(S0, b["D"], -1)
+                    if L.eq(b["vars"].get(v), want):
+                        keep[v] = r0
+                if keep == rel:
+                    break
+                rel = keep
+            # the body once more from the stable loop-head state, recording the obligations of the calls in it
+            h = copy_state(st)
+            Dh = L.sym(fresh("D"))
+            h["D"] = Dh
+            for v in mod:
+                h["vars"][v] = Dh if rel.get(v) == "D" else (L.add(S0, Dh, -1) if rel.get(v) == "S-D" else None)
+            b = copy_state(h)
+            run(nd["body"], b, record)
+            if k == "ForStmt" and nd.get("inc") is not None:
+                run(nd["inc"], b, record)
+            # after the loop: the loop-head state (a while / for loop leaves at its test)
+            st["vars"], st["D"], st["calls"] = h["vars"], h["D"], h["calls"]
+            if k == "DoStmt":
+                st["vars"], st["D"], st["calls"] = b["vars"], b["D"], b["calls"]
+        elif k == "IfStmt":
+            do_calls(nd["cond"], st, record)
+            a = copy_state(st)
+            run(nd["then"], a, record)
+            b2 = copy_state(st)
+            if nd.get("else") is not None:
+                run(nd["else"], b2, record)
+            for v in set(a["vars"]) | set(b2["vars"]):
+                st["vars"][v] = a["vars"].get(v) if L.eq(a["vars"].get(v), b2["vars"].get(v)) else None
+            st["D"] = a["D"] if L.eq(a["D"], b2["D"]) else None
+            st["calls"] = a["calls"]
+        elif k == "ReturnStmt":
+            if "value" in nd:
+                do_calls(nd["value"], st, record)
+                if record:
+                    st["ret"].append((nd, ev(fn.term(nd["value"]), st), st["D"]))
+        else:
+            do_calls(nid, st, record)
+
+    st = {"vars": {size0: L.sym("bufferSize0")}, "calls": {}, "D": L.const(0), "ret": []}
+    run(fn.body, st, True)
+    if not sites:
+        raise AnalysisBroken("HuffLZ::GetData: no CopyAvailableData call found")
+    S0 = L.sym("bufferSize0")
+    for i, (nd, dst, room, off, rm, D) in enumerate(sites, 1):
+        inst = "%s::GetData#chunk%d-placement" % (HL, i)
+        req = "chunk is placed at buffer + (bytes delivered so far in this call)"
+        if off is not None and L.eq(off, D):
+            out.append(ok("R-ACCT", inst, fn.loc(nd["id"]), fn.qn, req, "%s = buffer + %s" % (fmt_term(dst), L.txt(D))))
+        else:
+            out.append(bad("R-ACCT", inst, fn.loc(nd["id"]), fn.qn, req,
+                           "destination %s is buffer + %s where %s bytes have been delivered: later chunks overwrite earlier ones or leave a gap" % (fmt_term(dst), L.txt(off), L.txt(D))))
+        inst = "%s::GetData#chunk%d-room" % (HL, i)
+        req = "the room offered for the chunk is the caller's size minus the bytes delivered so far"
+        if rm is not None and L.eq(rm, L.add(S0, D, -1)):
+            out.append(ok("R-ACCT", inst, fn.loc(nd["id"]), fn.qn, req, "%s = bufferSize - %s" % (fmt_term(room), L.txt(D))))
+        else:
+            out.append(bad("R-ACCT", inst, fn.loc(nd["id"]), fn.qn, req, "room %s is %s, delivered %s" % (fmt_term(room), L.txt(rm), L.txt(D))))
+    for (nd, v, D) in st["ret"]:
+        inst = "%s::GetData#returns-delivered" % HL
+        req = "the count returned is the number of bytes delivered"
+        if v is not None and L.eq(v, D):
+            out.append(ok("R-ACCT", inst, fn.loc(nd["id"]), fn.qn, req, L.txt(D)))
+        else:
+            out.append(bad("R-ACCT", inst, fn.loc(nd["id"]), fn.qn, req, "returns %s, delivered %s" % (L.txt(v), L.txt(D))))
+    return out, len(sites)
+
 
 def check(F, run, tier):
     S = Summaries(F)
@@ -421,6 +664,9 @@ def check(F, run, tier):
     obs, n = drain_copies(F, S)
     run.add(obs)
     run.floor("drain-copies", n, 2)
+    obs, n = drain_placement(F, S)
+    run.add(obs)
+    run.floor("drain-chunks", n, 2)
     ex = F.fn("OP2Utility::Archive::VolFile::ExtractFileLzh", nparams=2)
     o, k = raw_io_extents(F, S, [ex], "Write")
     run.add(o)
